@@ -75,6 +75,14 @@ class Snap:
             return 'print-raises', f'print_model raises {type(e).__name__} afterwards'
         if text != self.text:
             return 'text', 'the printed text changed'
+        try:
+            n_len, n_iter = len(root.token_store), sum(1 for _ in root.token_store)
+        except Exception as e:
+            return 'store-length-raises', f'len(token_store) raises {type(e).__name__} afterwards'
+        if n_len != n_iter:
+            # nothing was created or dropped, so the store's idea of its own size may not move either (its truthiness decides
+            # whether a model prints at all)
+            return 'store-length-drift', f'len(token_store) is {n_len}, the store holds {n_iter} tokens'
         return None
 
 
